@@ -475,6 +475,11 @@ pub fn session(lines: &[String], tabs: &Tables, emit: &mut dyn FnMut(String)) {
                             if let Some(cfa) = st.frames[k - 1].1 && get(7) != Some(cfa) {
                                 fails.push(("frame-select-stack-pointer-wrong".into(), format!("stop at {:x}, frame {k}: rsp {:?}, real {cfa:x}", st.pc - base, get(7).map(|a| format!("{a:x}")))));
                             }
+                            // the return-address column carried into frame k is the instruction pointer of frame k (shadow stack)
+                            if get(16) != Some(st.frames[k].0) {
+                                let key = if k + 1 < st.frames.len() && get(16) == Some(st.frames[k + 1].0) { "frame-select-callee-saved-registers-are-those-of-the-caller-frame" } else { "frame-select-instruction-pointer-wrong" };
+                                fails.push((key.into(), format!("stop at {:x}, frame {k}: rip {:?}, the frame's ip is {:x}", st.pc - base, get(16).map(|a| format!("{a:x}")), st.frames[k].0)));
+                            }
                             // frame-pointer chain (only while every frame below k has its frame pointer established: CFA = RBP+16)
                             let fp_ok = (0..k).all(|i| st.rows_at[i].as_ref().is_some_and(|r| r.cfa == CfaR::RegOff(6, 16)));
                             if fp_ok {
